@@ -2,6 +2,8 @@
 
 from __future__ import annotations
 
+import itertools
+
 from vf.core import digest
 from vf.props import clifam
 
@@ -40,7 +42,24 @@ def cases(tier):
     out = [{"k": "s", "s": s} for s in clifam.scenarios(tier)]
     for i in range(len(INLINE)):
         out.append({"k": "inline", "i": i})
+        if INLINE[i]["inline"].startswith("-- sqlfluff:"):
+            # every accepted spelling / placement / line ending of the directive line
+            for sp, pl, crlf in itertools.product((0, 1), (0, 1), (0, 1)):
+                if sp or pl or crlf:
+                    out.append({"k": "inline", "i": i, "sp": sp, "pl": pl, "crlf": crlf})
     return out
+
+
+def directive_text(case):
+    text = INLINE[case["i"]]["inline"]
+    if case.get("sp") or case.get("pl") or case.get("crlf"):
+        head, _, rest = text.partition("\n")
+        if case.get("sp"):
+            head = "--" + head[3:]  # '--sqlfluff:' (no space) is accepted as well
+        text = (rest + head + "\n") if case.get("pl") else (head + "\n" + rest)
+        if case.get("crlf"):
+            text = text.replace("\n", "\r\n")
+    return text
 
 
 def compare(obs, add, res, cli_flags=False):
@@ -78,8 +97,8 @@ def run_case(case):
     if case["k"] == "inline":
         spec = INLINE[case["i"]]
         s = {
-            "err": "none", "fix": "none", "supp": "none", "feu": False, "inline": case["i"],
-            "text": spec["inline"],
+            "err": "none", "fix": "none", "supp": "none", "feu": False, "inline": [case["i"], case.get("sp", 0), case.get("pl", 0), case.get("crlf", 0)],
+            "text": directive_text(case),
             "cfg": "[sqlfluff]\ndialect = ansi\nrules = %s\n" % spec.get("rules", "LT01,CP01"),
         }
         if "file" in spec:
